@@ -34,7 +34,7 @@ META = {
 }
 RANDOM = {'quick': 2400, 'thorough': 200000}
 GENERATED = {'quick': 160, 'thorough': 12000}
-SECONDS = {'quick': 60, 'thorough': 600}
+SECONDS = {'quick': 300, 'thorough': 600}
 
 
 def prunable(n):
